@@ -412,3 +412,49 @@ Proof.
   - apply bytes_cmp_eq in E2. subst. rewrite E1. reflexivity.
   - rewrite (bytes_cmp_trans_lt a b c E1 E2). reflexivity.
 Qed.
+
+(* ---------- deleting key by key what a range scan returned = filtering the range out ---------- *)
+Section DeleteEach.
+  Context {K V : Type}.
+  Variable eqb : K -> K -> bool.
+  Hypothesis eqb_eq : forall a b, eqb a b = true <-> a = b.
+
+  Lemma filter_true {A} (l : list A) : filter (fun _ => true) l = l.
+  Proof. induction l as [|x r IH]; cbn; [reflexivity|rewrite IH; reflexivity]. Qed.
+  Lemma filter_and {A} (p q : A -> bool) (l : list A) : filter p (filter q l) = filter (fun x => q x && p x) l.
+  Proof.
+    induction l as [|x r IH]; cbn; [reflexivity|]. destruct (q x); cbn; [destruct (p x); rewrite IH; reflexivity|exact IH].
+  Qed.
+
+  Lemma adel_filter k (m : list (K * V)) : NoDup (map fst m) ->
+    adel eqb k m = filter (fun e => negb (eqb k (fst e))) m.
+  Proof.
+    induction m as [|[k' v'] r IH]; intros ND; cbn [adel filter map fst] in *; [reflexivity|].
+    inversion ND as [|? ? Hn ND']; subst. destruct (eqb k k') eqn:E; cbn [negb].
+    - apply eqb_eq in E; subst k'. symmetry. rewrite <- (filter_true r) at 2. apply filter_ext_in.
+      intros [k2 v2] Hin. cbn [fst]. destruct (eqb k k2) eqn:E2; [|reflexivity].
+      apply eqb_eq in E2; subst k2. exfalso. apply Hn. apply in_map_iff. exists (k, v2). auto.
+    - rewrite IH by exact ND'. reflexivity.
+  Qed.
+
+  Lemma fold_adel_filter ks : forall (m : list (K * V)), NoDup (map fst m) ->
+    fold_left (fun acc k => adel eqb k acc) ks m = filter (fun e => negb (existsb (fun k => eqb k (fst e)) ks)) m.
+  Proof.
+    induction ks as [|k ks IH]; intros m ND; cbn [fold_left existsb negb]; [symmetry; apply filter_true|].
+    rewrite IH by (apply (nodup_adel eqb); exact ND). rewrite (adel_filter k m ND), filter_and.
+    apply filter_ext. intros e. destruct (eqb k (fst e)); reflexivity.
+  Qed.
+
+  (* iterate the keys satisfying a predicate of the key and delete each of them *)
+  Lemma delete_each_filter (P : K -> bool) (m : list (K * V)) : NoDup (map fst m) ->
+    fold_left (fun acc k => adel eqb k acc) (map fst (filter (fun e => P (fst e)) m)) m = filter (fun e => negb (P (fst e))) m.
+  Proof.
+    intros ND. rewrite fold_adel_filter by exact ND. apply filter_ext_in. intros e He. f_equal.
+    destruct (P (fst e)) eqn:Pe.
+    - apply existsb_exists. exists (fst e). split; [|apply eqb_eq; reflexivity].
+      apply in_map. apply filter_In. split; [exact He|exact Pe].
+    - destruct (existsb _ _) eqn:X; [|reflexivity]. apply existsb_exists in X. destruct X as (k & Hk & Ek).
+      apply eqb_eq in Ek. subst k. apply in_map_iff in Hk. destruct Hk as (e' & E' & He'). apply filter_In in He'.
+      destruct He' as [_ P']. rewrite E' in P'. congruence.
+  Qed.
+End DeleteEach.
